@@ -75,7 +75,7 @@ func c02Check(o *Oracle, c canonCase) (ok bool, kind, detail, resp string) {
 func init() {
 	stages["c02-search"] = func(ctx *Ctx, cnt func(q, t int) int, replay string) Result {
 		col := NewCollector("C02", "search", "C01's generators × reverse-solution × preserve-collinear on an engine object; each solution checked for ≥3 vertices, no equal cyclically consecutive vertices, winding ∈ {0, ±1} outside the 2-band of its own edges (Lean oracle), and Union(sol)=sol; non-trivial = non-empty solution with ≥ 2 judged faces; distinct by input hash")
-		parallelFor(ctx, cnt(2500, 150000), true, col, func(o *Oracle, i int) {
+		parallelFor(ctx, cnt(15000, 150000), true, col, func(o *Oracle, i int) {
 			r := NewRng(ctx.Seed, "c02", i)
 			c := canonCase{boolCase: genBoolCase(r, ctx.Tier), Reverse: r.Chance(0.3), Preserve: r.Bool()}
 			ok, kind, detail, resp := c02Check(o, c)
